@@ -2,8 +2,9 @@
 import itertools
 
 NAME = "sudoku"
-STATUS = "model+differential"
-THEOREMS = []
+STATUS = "theorem"
+THEOREMS = ["Cspuz.C11.Sudoku.program_iff_rules", "Cspuz.C11.Sudoku.total"]
+LEAN_FILE = "C11_Sudoku"
 LEAN_CMD = "puz_sudoku"
 
 
@@ -15,7 +16,7 @@ def gen_problem(rng, tier):
     perm = list(range(1, size + 1))
     rng.shuffle(perm)
     grid = [[perm[v - 1] for v in row] for row in base]
-    keep = rng.choice([0.5, 0.7, 0.9])
+    keep = rng.choice([0.5, 0.7, 0.9]) if rng.random() < 0.96 else 0.0     # 0.0: empty clue set (288 solutions for n = 2)
     pb = [[grid[y][x] if rng.random() < keep else 0 for x in range(size)] for y in range(size)]
     if rng.random() < 0.2 and size > 1:
         pb[rng.randrange(size)][rng.randrange(size)] = rng.randint(1, size)
